@@ -151,7 +151,7 @@ def verify(code=None, filename=DEFAULT_STUDENT_FILENAME, report=MAIN_REPORT,
         indentation_error(e.lineno, e.filename, code, e.offset, e,
                           sys.exc_info(), report=report, muted=muted, enhance=enhance)
         report[TOOL_NAME]['success'] = False
-        report[TOOL_NAME]['ast'] = ast.parse("")
+        report[TOOL_NAME]['ast'], report[TOOL_NAME]['ast_code'] = ast.parse(""), ""
     except SyntaxError as e:
         if e.lineno is None:
             # Some errors (e.g., null bytes in the source) carry no position at all
@@ -160,7 +160,7 @@ def verify(code=None, filename=DEFAULT_STUDENT_FILENAME, report=MAIN_REPORT,
         syntax_error(e.lineno, e.filename, code, e.offset, e,
                      sys.exc_info(), report=report, muted=muted, enhance=enhance)
         report[TOOL_NAME]['success'] = False
-        report[TOOL_NAME]['ast'] = ast.parse("")
+        report[TOOL_NAME]['ast'], report[TOOL_NAME]['ast_code'] = ast.parse(""), ""
     except (ValueError, MemoryError, RecursionError) as e:
         # The parser can also give up without a SyntaxError: a lone surrogate
         # cannot be encoded for it, or the nesting is too deep for its stack.
@@ -171,7 +171,7 @@ def verify(code=None, filename=DEFAULT_STUDENT_FILENAME, report=MAIN_REPORT,
             syntax_error(unparsable.lineno, unparsable.filename, code, unparsable.offset, unparsable,
                          sys.exc_info(), report=report, muted=muted, enhance=enhance)
         report[TOOL_NAME]['success'] = False
-        report[TOOL_NAME]['ast'] = ast.parse("")
+        report[TOOL_NAME]['ast'], report[TOOL_NAME]['ast_code'] = ast.parse(""), ""
     else:
         report[TOOL_NAME]['success'] = True
     return report[TOOL_NAME]['success']
